@@ -26,8 +26,8 @@ type checker struct {
 }
 
 func run(e *harness.Env) {
-	e.Rule = "documents = (A) every sequence of <=2 (quick) / <=3 (thorough) content blocks over 42 block shapes " +
-		"(h1-h6, p, pre, code, pre>code, blockquote[>p], ul/ol depth 1-3, li with <p>, tables with thead/tbody/tfoot and row/col spans, lists as direct children of lists, sibling lists in one parent, neutral containers, script/style noise); " +
+	e.Rule = "documents = (A) every sequence of <=2 (quick) / <=3 (thorough) content blocks over 53 block shapes " +
+		"(h1-h6, p, pre, code, pre>code, blockquote[>p], ul/ol depth 1-3, li with <p>, tables with thead/tbody/tfoot and row/col spans, lists as direct children of lists, nested lists / tables / quotes / pre reached through div, section, span inside an item, sibling lists in one parent, neutral containers, script/style noise); " +
 		"(A2) every shape and pair x 8 inline variants (plain, named/decimal/hex entities, inline markup, script+comment inside, misnested inline tags, mixed) x 4 frames (full, fragment, head/body omitted, XHTML) x 8 spellings (omitted end tags, quoting, case, whitespace, cut off before the trailing end tags); " +
 		"(B) one possibly-excludable wrapper (semantic elements, ARIA roles, 20 vocabulary words x 10 decorations x class/id, near-misses, link-dense/sparse blocks, attribute-carrying leaves) x 20 page skeletons (top-level, single wrapper, nested, inside and directly inside lists, only block child of a neutral container, with loose inline text beside it) x inner content; " +
 		"(B2) every block shape inside and right after 8 representative wrappers x 4 skeletons; (C) ordered pairs of wrappers nested and as siblings x skeletons; (D) triple nesting. " +
